@@ -653,11 +653,27 @@ func describeRoot(v ssa.Value) string {
 type retInfo struct {
 	Ret  *ssa.Return
 	Vals []ssa.Value
+	// At is the block the returned values come from: the block of the Return, or -
+	// when the Return sits in a merge block whose results are phis (one `return`
+	// statement fed by several assignments, as after inlining) - the predecessor
+	// that supplies this combination of values.
+	At *ssa.BasicBlock
+}
+
+// Point is the instruction at which this return leaves: the Return itself, or
+// the terminator of the predecessor that supplies the values.
+func (ri retInfo) Point() ssa.Instruction {
+	if ri.At != nil && ri.At != ri.Ret.Block() && len(ri.At.Instrs) > 0 {
+		return ri.At.Instrs[len(ri.At.Instrs)-1]
+	}
+	return ri.Ret
 }
 
 // returnsOf lists the reachable Return instructions of f with their result
 // values; a result that is a load of a result-spill local (functions with
-// defers) is resolved to the value stored last in the same block.
+// defers) is resolved to the value stored last in the same block, and a Return
+// whose results are phis of its own (otherwise empty) block is expanded into one
+// entry per incoming edge.
 func returnsOf(f *ssa.Function) []retInfo {
 	var out []retInfo
 	for _, b := range f.Blocks {
@@ -671,13 +687,53 @@ func returnsOf(f *ssa.Function) []retInfo {
 		if b != f.Blocks[0] && len(b.Preds) == 0 {
 			continue // recover block
 		}
-		ri := retInfo{Ret: ret}
+		var vals []ssa.Value
 		for _, v := range ret.Results {
-			ri.Vals = append(ri.Vals, resolveLocalLoad(v))
+			vals = append(vals, resolveLocalLoad(v))
 		}
-		out = append(out, ri)
+		expandReturn(ret, b, vals, 0, &out)
 	}
 	return out
+}
+
+// onlyPhisBefore: every instruction of b before its terminator is a phi (or a debug reference).
+func onlyPhisBefore(b *ssa.BasicBlock) bool {
+	for _, ins := range b.Instrs[:len(b.Instrs)-1] {
+		switch ins.(type) {
+		case *ssa.Phi, *ssa.DebugRef:
+		default:
+			return false
+		}
+	}
+	return true
+}
+
+func expandReturn(ret *ssa.Return, b *ssa.BasicBlock, vals []ssa.Value, depth int, out *[]retInfo) {
+	hasPhi := false
+	for _, v := range vals {
+		if ph, ok := v.(*ssa.Phi); ok && ph.Block() == b {
+			hasPhi = true
+		}
+	}
+	if !hasPhi || !onlyPhisBefore(b) || depth > 4 || len(b.Preds) == 0 {
+		*out = append(*out, retInfo{Ret: ret, Vals: vals, At: b})
+		return
+	}
+	for i, p := range b.Preds {
+		nv := make([]ssa.Value, len(vals))
+		for j, v := range vals {
+			nv[j] = v
+			if ph, ok := v.(*ssa.Phi); ok && ph.Block() == b {
+				nv[j] = ph.Edges[i]
+			}
+		}
+		// continue through jump-only merge blocks
+		if _, isJump := p.Instrs[len(p.Instrs)-1].(*ssa.Jump); isJump && onlyPhisBefore(p) {
+			expandReturn(ret, p, nv, depth+1, out)
+		} else {
+			*out = append(*out, retInfo{Ret: ret, Vals: nv, At: p})
+		}
+	}
 }
 
 // resolveLocalLoad: if v is a load of a local Alloc and a store to that Alloc
